@@ -22,6 +22,7 @@ import (
 	"io/fs"
 	"log/slog"
 	"net/http/httptest"
+	"os"
 	"sort"
 	"strconv"
 	"strings"
@@ -118,7 +119,9 @@ type zc43PtrErr struct{ Op string }
 func (e *zc43PtrErr) Error() string { return "pointer-typed error in " + e.Op }
 
 var zc43ErrValueNames = []string{"RpcError", "errors.New", "uintptr-based(syscall.Errno)", "string-based", "int-based", "struct-valued",
-	"pointer-to-struct", "*fs.PathError", "wrapped-RpcError", "errors.Join", "func-based"}
+	"pointer-to-struct", "*fs.PathError", "wrapped-RpcError", "errors.Join", "func-based",
+	// well-known sentinel values (a handler that gives up returns ctx.Err(), io.EOF, ...), bare and wrapped
+	"context.Canceled", "wrapped-context.Canceled", "context.DeadlineExceeded", "io.EOF", "wrapped-os.ErrNotExist", "io.ErrUnexpectedEOF"}
 
 type zc43FuncErr func() string
 
@@ -146,8 +149,20 @@ func zc43ErrValue(i int) error {
 		return fmt.Errorf("wrapped: %w", &vgirpc.RpcError{Type: "ValueError", Message: "inner"})
 	case 9:
 		return errors.Join(errors.New("first"), zc43IntErr(3))
-	default:
+	case 10:
 		return zc43FuncErr(func() string { return "func-based error" })
+	case 11:
+		return context.Canceled
+	case 12:
+		return fmt.Errorf("query abandoned: %w", context.Canceled)
+	case 13:
+		return context.DeadlineExceeded
+	case 14:
+		return io.EOF
+	case 15:
+		return fmt.Errorf("lookup: %w", os.ErrNotExist)
+	default:
+		return io.ErrUnexpectedEOF
 	}
 }
 
